@@ -57,6 +57,14 @@ def gen_and_run(tier, seed):
     rng.shuffle(b4q)
     advs += [dict(c, adv=["always_equal", "container", "ordering"][i % 3]) for i, c in enumerate(b4q[:3000])]
     advs += mc.fresh_cases(mc.CLASSES)
+    # a chain deeper than the interpreter's recursion limit (the harness runs the call under a limit of 250):
+    # the loop check must still see the root - a node may not be put below its deepest descendant
+    n = 600
+    chain = [[None if i == 0 else i - 1, [i + 1] if i + 1 < n else []] for i in range(n)]
+    for cls in ("mixin", "light", "anynode"):
+        advs.append(mc.mk(cls, chain, ["set_parent", 0, n - 1]))
+        advs.append(mc.mk(cls, chain, ["set_children", n - 1, [0]]))
+        advs.append(mc.mk(cls, chain, ["set_parent", 1, n - 1]))
     fobs = mc.run_impl(fc + pers + advs, PROP)
     cases = base + fc + pers + advs
     obs = obs0 + fobs
